@@ -296,6 +296,13 @@ class MailboxData(MailboxDataInterface[Message]):
 
     async def move(self, uid: int, destination: MailboxData, *,
                    recent: bool = False) -> int | None:
+        if destination._path == self._path:
+            # the file would be renamed onto itself, and both write locks
+            # below would be the same lock
+            dest_uid = await self.copy(uid, destination, recent=recent)
+            if dest_uid is not None:
+                await self.delete([uid])
+            return dest_uid
         maildir = self._maildir
         dest_maildir = destination._maildir
         async with UidList.with_read(self._path) as uidl:
